@@ -136,7 +136,7 @@ func (g *c02Gen) compSites() {
 		for i := 0; i < 2*n; i++ {
 			idx = append(idx, c02V{K: intK, I: int64(i), Boundary: true})
 		}
-		for _, sh := range g.compShapes(k, ki) {
+		for si, sh := range g.compShapes(k, ki) {
 			ctxs := c02CompCtxVal
 			R := k.Name
 			if sh.Bool {
@@ -145,7 +145,12 @@ func (g *c02Gen) compSites() {
 			if strings.HasPrefix(sh.Fam, "conv/") {
 				R = sh.Expr[:strings.IndexByte(sh.Expr, '(')]
 			}
-			for _, ctx := range ctxs {
+			for ci, ctx := range ctxs {
+				// integer kinds: two contexts per shape, rotated over kinds, shapes and seeds (every
+				// family x context cell is still hit in every run, through the 11 integer kinds)
+				if k.isInt() && g.tier != "thorough" && (ci+ki+si+int(g.seed))%len(ctxs) >= 2 {
+					continue
+				}
 				s := &c02Site{Cat: "comp", Op: sh.Expr, K: k, Form: sh.Fam, Ctx: ctx, Xs: idx, RefOnly: true}
 				g.nextID++
 				s.ID = g.nextID
